@@ -13,7 +13,8 @@ def project():
                           "".join(f"  subroutine p{i}()\n    call p{i+1}()\n  end subroutine p{i}\n" for i in range(1, 5)) +
                           "  subroutine p5()\n    call p1()\n    call lonely()\n    call shy()\n  contains\n    subroutine shy()\n      !! graph: false\n      call p1()\n    end subroutine shy\n  end subroutine p5\n  subroutine lonely()\n    !! graph: false\n  end subroutine lonely\nend module chain\n")
     f["src/uses.f90"] = ("module base\nend module base\nmodule left\n  use base\nend module left\nmodule right\n  use base\nend module right\n"
-                         "module top\n  use left\n  use right\n  use quiet\nend module top\nmodule quiet\n  !! graph: false\n  use base\nend module quiet\n")
+                         "module top\n  use left\n  use right\n  use quiet\nend module top\nmodule quiet\n  !! graph: false\n  use base\n  interface\n    module subroutine qs()\n    end subroutine qs\n  end interface\nend module quiet\n"
+                         "submodule (quiet) quiet_impl\ncontains\n  module subroutine qs()\n  end subroutine qs\nend submodule quiet_impl\n")
     f["src/types.f90"] = ("module types\n  implicit none\n  type :: t0\n    integer :: a\n  end type t0\n  type, extends(t0) :: t1\n  end type t1\n  type, extends(t1) :: t2\n    type(t0) :: comp\n  end type t2\n"
                           "  type :: alpha\n  contains\n    procedure :: ei\n    generic :: g => ei\n    procedure :: init => init_a\n  end type alpha\n  type :: beta\n  contains\n    procedure :: init => init_b\n  end type beta\ncontains\n  subroutine ei(self)\n    class(alpha) :: self\n    call eight()\n  end subroutine ei\n"
                           "  subroutine eight()\n  end subroutine eight\n  subroutine foo()\n    type(alpha) :: y\n    call y%g()\n  end subroutine foo\n"
@@ -23,6 +24,11 @@ def project():
     f["src/holders.f90"] = ("module holders\n  use types\n  implicit none\n  type :: holder\n    type(t0) :: kept\n  end type holder\n  type, extends(holder) :: h1\n  end type h1\n"
                             "  type, extends(h1) :: h2\n    integer :: own\n  end type h2\nend module holders\n")
     # a USE two procedure levels down is still a dependency of the file
+    # a call through a name that an inner ASSOCIATE re-defines goes to the inner selector's binding
+    f["src/assoc.f90"] = ("module assoc_shapes\n  implicit none\n  type :: circle_t\n  contains\n    procedure :: draw => draw_circle\n  end type circle_t\n  type :: square_t\n  contains\n    procedure :: draw => draw_square\n"
+                          "  end type square_t\ncontains\n  subroutine draw_circle(self)\n    class(circle_t) :: self\n  end subroutine draw_circle\n  subroutine draw_square(self)\n    class(square_t) :: self\n"
+                          "  end subroutine draw_square\n  subroutine render()\n    type(circle_t) :: c\n    type(square_t) :: s\n    associate (item => c)\n      associate (item => s)\n        call item%draw()\n"
+                          "      end associate\n    end associate\n  end subroutine render\nend module assoc_shapes\n")
     f["src/deep.f90"] = ("module deep\n  implicit none\ncontains\n  subroutine outer()\n  contains\n    subroutine inner()\n      use base\n    end subroutine inner\n  end subroutine outer\nend module deep\n"
                          "program deep_main\ncontains\n  subroutine level1()\n  contains\n    subroutine level2()\n      use deep\n    end subroutine level2\n  end subroutine level1\nend program deep_main\n")
     return f
@@ -59,6 +65,14 @@ def exact_relations(gm):
             got = {b for a, b in edges_of(e.callsgraph) if a == "two_inits"}
             if got != {"init_a", "init_b"}:
                 bad.append(f"calls graph of two_inits: edges to {sorted(got)}, expected to init_a (alpha%init) and init_b (beta%init)")
+    for e in gm.graph_objs:
+        if e.name == "render" and hasattr(e, "callsgraph"):
+            got = {b for a, b in edges_of(e.callsgraph)}
+            if "draw_square" not in got or "draw_circle" in got:
+                bad.append(f"calls graph of render: procedures reached {sorted(got)}, expected square_t%draw -> draw_square only (the inner ASSOCIATE re-defines `item`)")
+        if e.name == "draw_square" and hasattr(e, "calledbygraph"):
+            if not edges_of(e.calledbygraph):
+                bad.append("called-by graph of draw_square is empty although render calls it through square_t%draw")
     got = edges_of(gm.usegraph)
     if got != USE_EDGES:
         bad.append(f"project module graph: unexpected edges {sorted(got - USE_EDGES)}, missing edges {sorted(USE_EDGES - got)}")
